@@ -31,16 +31,32 @@ type metaCase struct {
 var tonl01Re = regexp.MustCompile(`type (\w+) is marked @testonly`)
 var pkgo01Re = regexp.MustCompile(`\] (\w+) type is @packageonly`)
 
-var tagLineRe = regexp.MustCompile(`// s(\d+)\b`)
+var tagLineRe = regexp.MustCompile(`(?://|/\*) s(\d+)\b`)
 
 // siteKeys maps diagnostics to layout-independent keys.
 func siteKeys(sources map[string]string, diags []engine.Diag, maxTag int, prefixes []string, oncePerFileBySite bool) map[string]bool {
 	out := map[string]bool{}
+	counts := map[string]int{}
+	seen := map[string]bool{}
 	lines := map[string][]string{}
 	for k, v := range sources {
 		lines[k] = strings.Split(v, "\n")
 	}
+	defer func() {
+		// a statement carrying the same code several times (x.a, x.b = 1, 2)
+		for k, n := range counts {
+			if n > 1 {
+				delete(out, k)
+				out[fmt.Sprintf("%s (x%d)", k, n)] = true
+			}
+		}
+	}()
 	for _, d := range diags {
+		uk := fmt.Sprintf("%s:%d:%d:%s:%s", d.File, d.Line, d.Col, d.Code, d.Message)
+		if seen[uk] {
+			continue
+		}
+		seen[uk] = true
 		if len(prefixes) > 0 {
 			ok := false
 			for _, p := range prefixes {
@@ -64,10 +80,8 @@ func siteKeys(sources map[string]string, diags []engine.Diag, maxTag int, prefix
 		}
 		ls := lines[d.File]
 		tag := ""
-		if d.Line >= 1 && d.Line <= len(ls) {
-			if m := tagLineRe.FindStringSubmatch(ls[d.Line-1]); m != nil {
-				tag = m[1]
-			}
+		if id := proggen.TagAtCol(ls, d.Line, d.Col); id != 0 {
+			tag = fmt.Sprint(id)
 		}
 		if tag == "" {
 			out[fmt.Sprintf("untagged line in %s: %s %q", path.Dir(d.File), d.Code, strings.TrimSpace(safeLine(ls, d.Line)))] = true
@@ -79,6 +93,7 @@ func siteKeys(sources map[string]string, diags []engine.Diag, maxTag int, prefix
 			continue
 		}
 		out["s"+tag+" "+d.Code] = true
+		counts["s"+tag+" "+d.Code]++
 	}
 	return out
 }
